@@ -35,6 +35,9 @@ def pivot():
         U("H3", disabled=True, attr_style="trailing"), U("D"),
         U("H4", disabled=True, serialize=["x", "yy"], attr_style="split"), U("E"),
     ], note="`disabled` sharing one #[strum(..)] attribute with key = value items (before and after them), with a trailing comma, and split over attributes"))
+    for n in (256, 257):
+        S.append(EnumSpec("Big%d" % n, [U("V%d" % i, disabled=(i in (7, n + 1))) for i in range(n + 2)],
+                          note="%d enabled variants (+2 disabled): cursor / index arithmetic at the 8-bit boundary" % n))
     S.append(EnumSpec("Eight", [U("V%d" % i, disabled=(i in (0, 4, 9))) for i in range(11)], note="8 enabled of 11"))
     return S
 
@@ -102,7 +105,24 @@ def program(spec: EnumSpec, pname, tier):
     core::mem::forget(a); core::mem::forget(b); core::mem::forget(r);
 """ % {"E": E}
     fns = ["%sIter::nth" % spec.name, "%sIter::next_back" % spec.name, "%sIter::get" % spec.name, "<%s as EnumCount>::COUNT" % spec.name]
-    hs = [Harness(name="h_nth_is_ith_enabled", body=body, unwind=C + 3, kind="symbolic",
+    if C > 64:
+        # large enums: the reverse accessor is a COUNT-iteration loop over a COUNT-arm match (CBMC runs out of memory);
+        # the forward accessor is loop-free, the complete backward traversal below is concrete
+        body = """    use strum::{IntoEnumIterator, EnumCount};
+    assert!(<%(E)s as EnumCount>::COUNT == C, "COUNT is not the number of enabled variants");
+    assert!(<%(E)s as IntoEnumIterator>::iter().len() == C, "iter().len() != COUNT");
+    let i = nd_usize();
+    vcover!(i == C, "first index past the end");
+    vcover!(i == usize::MAX, "largest index");
+    let a = <%(E)s as IntoEnumIterator>::iter().nth(i);
+    check(&a, if i < C { Some(i) } else { None });
+    let mut it = <%(E)s as IntoEnumIterator>::iter();
+    let _ = it.nth(i);
+    assert!(it.len() == (if i < C { C - 1 - i } else { 0 }), "len() after nth(i) is wrong");
+    let b = it.next();
+    check(&b, if i < C && i + 1 < C { Some(i + 1) } else { None });
+""" % {"E": E}
+    hs = [Harness(name="h_nth_is_ith_enabled", body=body, unwind=(C + 3 if C <= 64 else 8), kind="symbolic",
                   desc="iter().nth(i) / rev().nth(i) vs the declared list of enabled variants for EVERY i: usize; distinct positions give distinct variants; len == COUNT",
                   bound={"i": "all of usize", "COUNT": C}, min_covers=2, functions=fns)]
     body = """    use strum::IntoEnumIterator;
